@@ -712,7 +712,7 @@ def emitter_oracle(ctx, r, hook, yaml_text, tag, em_reqs, em_impl, ndrive, libta
         why = judge_call(name, self_, ind, spaces, line, text)
         if why:
             o = self_.newlibrary.options
-            if ctx.fail("emitter:%s:%s" % (name, why.split(":")[0]),
+            if ctx.fail("emitter:%s:linelen=option%+d:%s" % (name, int(self_.linelen) - nominal(name, self_)[0], why.split(":")[0]),
                         "%s (C_line_length=%s F_line_length=%s, self.linelen=%s) wrote %r for the logical line %r at indentation %d: %s" % (
                             name, o.C_line_length, o.F_line_length, self_.linelen, text, line, ind, why),
                         {"yaml": yaml_text, "emitter": name, "indent": ind, "spaces": spaces, "line": line, "written": text,
@@ -741,7 +741,7 @@ def emitter_oracle(ctx, r, hook, yaml_text, tag, em_reqs, em_impl, ndrive, libta
                 ctx.nontrivial(("em", name, libtag, line))
             why = judge_call(name, self_, ind, sp, line, text)
             if why and dbad <= 2:
-                if ctx.fail("emitter:%s:%s" % (name, why.split(":")[0]),
+                if ctx.fail("emitter:%s:linelen=option%+d:%s" % (name, int(self_.linelen) - nominal(name, self_)[0], why.split(":")[0]),
                             "%s as its __init__ configured it (C_line_length=%s F_line_length=%s, self.linelen=%s, cont=%r) wrote %r for the logical line %r "
                             "at indentation %d; judged against the option of its language (%d): %s" % (
                                 name, o.C_line_length, o.F_line_length, self_.linelen, self_.cont, text, line, ind, bound, why),
